@@ -172,7 +172,7 @@ def _stat_chunk(arg):
     EoN = _F["EoN"]
     G = netepi.build_graph(n, w, g)
     nodes = list(range(1, n + 1))
-    if weighted:
+    if weighted in (True, "w"):
         # a contact whose weight is exactly 0 never transmits: the pairs that are not contacts of the chain are
         # present in the network handed over, with transmission weight 0
         for a in nodes:
@@ -185,8 +185,12 @@ def _stat_chunk(arg):
     np.random.seed(seed % (2 ** 32))
     f = getattr(EoN, entry)
     kw = dict(initial_infecteds=I0, return_full_data=True)
-    if weighted:
+    if weighted is True:
         kw.update(transmission_weight="w", recovery_weight="g")
+    elif weighted == "g":       # only the recovery rates are scaled (contacts all have weight 1 in the chain)
+        kw.update(recovery_weight="g")
+    elif weighted == "w":       # only the transmission rates are scaled (node weights all 1 in the chain)
+        kw.update(transmission_weight="w")
     if R0:
         kw["initial_recovereds"] = R0
     if tmax is not None:
@@ -239,14 +243,18 @@ def statistical_part(chk, sis):
     ]
     if not sis:
         cases.append((4, (1, 1, 0, 1, 0, 1), (1, 1, 2, 1), 2, 2, ("I", "S", "R", "S"), 0.9, True))   # an initially recovered node
+    # one kind of weight only: the simulators choose their code path by which weights are named
+    cases.append((3, (1, 1, 0), (4, 1, 1), 2, 1, ("I", "S", "S"), 0.5, "g"))
+    cases.append((3, (2, 1, 1), (1, 1, 1), 1, 2, ("S", "I", "S"), 0.5, "w"))
     per = 2500 if chk.tier == "quick" else 20000
     for case in cases:
         (n, w, g, tau, gam, st0, T, weighted) = case
         pval, detail, N, obs, exp = law_at_T(chk, entry, sis, case, per, "fixed case")
         chk.part(entry + " statistical layer", runs=N, cases=1)
-        chk.note("%s state-at-T law vs master equation (n=%d, %s path): p=%.3g (%s, N=%d)" % (entry, n, "weighted" if weighted else "unweighted", pval, detail, N))
+        wname = {True: "weighted", False: "unweighted", "g": "recovery-weight-only", "w": "transmission-weight-only"}[weighted]
+        chk.note("%s state-at-T law vs master equation (n=%d, %s path): p=%.3g (%s, N=%d)" % (entry, n, wname, pval, detail, N))
         if pval < 1e-9:
-            chk.violation("%s|state-at-T-law|%s" % (entry, "weighted" if weighted else "unweighted"),
+            chk.violation("%s|state-at-T-law|%s" % (entry, wname),
                           "the distribution of the node-state vector at T=%r differs from the master-equation solution (G-test p=%.3g, %s, N=%d)" % (T, pval, detail, N),
                           {"case": [n, w, g, tau, gam, st0, T, weighted], "observed": {"".join(k): v for k, v in obs.items()},
                            "expected": {"".join(k): v * N for k, v in exp.items() if v > 0}})
